@@ -75,6 +75,7 @@ PROPS = {
              ["gcounter.apply", "gcounter.merge", "gcounter.inc", "gcounter.inc_many", "gcounter.read",
               "pncounter.apply", "pncounter.merge", "pncounter.inc", "pncounter.dec", "pncounter.inc_many", "pncounter.dec_many", "pncounter.read",
               "gset.*", "maxreg.*", "minreg.*", "lww.apply", "lww.merge", "lww.validate_op", "lww.validate_merge"],
+             exact=["lww.validate_op", "lww.validate_merge"],   # C11_lww_conflict fixes the verdict
              extra_as=["LWWReg: markers are unique (the same marker is never written with two values) for the convergence clause"]),
     "C12": P(["list", "glist"], ["list.apply", "list.insert_index", "list.append", "list.delete_index", "list.read", "list.len", "list.position", "list.validate_op", "ident.*", "glist.apply", "glist.merge", "glist.read"],
              streams=("structured",),
